@@ -43,6 +43,10 @@ Universe(tier) ==
   \* generated with naming conversion (the member names have an inner underscore)
   \cup { [h |-> h, split |-> FALSE, decoy |-> FALSE, aliased |-> FALSE, attrshadow |-> TRUE]
          : h \in { x \in Hier3 : ~x[1].pub /\ x[1].ms # {} /\ x[3].pub /\ x[3].ms \cap x[1].ms # {} /\ 1 \in AncIdx(x, 3, 3) } }
+  \* viamodule: class 1 is a generic class of another module; the classes that derive from it name it through the module and subscript
+  \* it (class X(inhb.C1[int])) - another spelling of the same base class
+  \cup { [h |-> h, split |-> TRUE, decoy |-> FALSE, aliased |-> FALSE, viamodule |-> TRUE]
+         : h \in { x \in Hier3 : ~x[1].pub /\ x[1].ms # {} /\ x[3].pub /\ 1 \in AncIdx(x, 3, 3) /\ (tier # "quick" \/ x[2].ms = {}) } }
   \* abstract: every public class that has bases also lists abc.ABC (first or last in its base list): a class of another library that
   \* changes nothing about the members and the public superclasses of the package
   \cup { [h |-> h, split |-> FALSE, decoy |-> FALSE, aliased |-> FALSE, abstract |-> a]
@@ -117,7 +121,7 @@ Emit == (pc = "done" /\ cur = CHOOSE k \in PublicClasses(sc) : TRUE) => PrintT(T
 ToSet(seq) == { seq[j] : j \in 1..Len(seq) }
 IsSubseq(s, t) ==   \* s (without duplicates) occurs in t in the same order
   \A a, b \in 1..Len(s) : a < b => \E x, y \in 1..Len(t) : x < y /\ t[x] = s[a] /\ t[y] = s[b]
-ShapeS(s, k) == (IF s.aliased THEN ":private-ancestor-re-exported-under-public-alias" ELSE "") \o (IF "attrshadow" \in DOMAIN s THEN ":own-attribute-shadows" ELSE "") \o (IF "abstract" \in DOMAIN s THEN ":also-derives-from-ABC" ELSE "")
+ShapeS(s, k) == (IF s.aliased THEN ":private-ancestor-re-exported-under-public-alias" ELSE "") \o (IF "attrshadow" \in DOMAIN s THEN ":own-attribute-shadows" ELSE "") \o (IF "abstract" \in DOMAIN s THEN ":also-derives-from-ABC" ELSE "") \o (IF "viamodule" \in DOMAIN s THEN ":base-named-through-module-and-subscripted" ELSE "")
 Shape(h, k) == (IF Len(h[k].bases) = 2 THEN "two-bases" ELSE "one-base")
                \o (IF \E a \in PrivAnc(h, k) : Cardinality({ b \in PrivAnc(h, k) \cup {k} : a \in BasesOf(h, b) }) > 1 THEN ":shared-private-ancestor" ELSE "")
                \o (IF \E a \in PrivAnc(h, k) : PrivAnc(h, a) # {} THEN ":private-chain" ELSE "")
